@@ -97,7 +97,7 @@ func c19(c *core.Check) {
 	c19Descriptors(c)
 	c19Ranges(c)
 	c19Copy(c)
-	r1 := c.Rule("R1", "every integer / and % of css/counters has a divisor proven non-zero, and every % whose result indexes a list has a dividend proven non-negative (Go's % keeps the sign of the dividend)", 12)
+	r1 := c.Rule("R1", "every integer / and % of css/counters has a divisor proven non-zero, and every % whose result indexes a list has a dividend proven non-negative (Go's % keeps the sign of the dividend)", 17)
 	divisionRule(c, r1, inPkgs("css/counters"))
 	// the sign is accounted for in the padding exactly when it is written: both steps test isNegative && useNegative
 	if rvf := p.Lookup("css/counters.CounterStyle.renderValue"); rvf != nil {
@@ -142,7 +142,7 @@ func c19(c *core.Check) {
 	}
 
 	// ---- R2 vocabulary
-	r2 := c.Rule("R2", "the system names accepted by the `system` descriptor validator and by symbols() are all cases of counters.renderValue's dispatch and of CounterStyleDescriptors.Validate; the six systems of Counter Styles 3 are all present", 12)
+	r2 := c.Rule("R2", "the system names accepted by the `system` descriptor validator and by symbols() are all cases of counters.renderValue's dispatch and of CounterStyleDescriptors.Validate; the six systems of Counter Styles 3 are all present", 21)
 	spec := []string{"additive", "alphabetic", "cyclic", "fixed", "numeric", "symbolic"}
 	sysFn := p.Fn("css/validation", "system")
 	rv := p.Method("css/counters", "CounterStyle", "renderValue")
@@ -281,7 +281,7 @@ func c19(c *core.Check) {
 	}
 
 	// ---- R5 counter-set / counter-increment instances are scoped
-	r5 := c.Rule("R5", "when boxes.UpdateCounters creates a counter instance for counter-set / counter-increment (no instance in scope) it registers the name in the sibling scope, so that the instance is removed when the parent element ends", 2)
+	r5 := c.Rule("R5", "when boxes.UpdateCounters creates a counter instance for counter-set / counter-increment (no instance in scope) it registers the name in the sibling scope, so that the instance is removed when the parent element ends", 3)
 	if uc := p.Fn("html/boxes", "UpdateCounters"); uc != nil {
 		setAdd := p.Method("utils", "Set", "Add")
 		n := 0
@@ -330,7 +330,7 @@ func c19(c *core.Check) {
 	}
 
 	// ---- R3 visited sets
-	r3 := c.Rule("R3", "resolveCounter refuses a counter name already in previousTypes and records the name before returning it; its extends loop and renderValue's extends loop test and extend previousTypes on every iteration; renderValue's fallback recursion passes the same set on", 6)
+	r3 := c.Rule("R3", "resolveCounter refuses a counter name already in previousTypes and records the name before returning it; its extends loop and renderValue's extends loop test and extend previousTypes on every iteration; renderValue's fallback recursion passes the same set on", 9)
 	rc := p.Method("css/counters", "CounterStyle", "resolveCounter")
 	if rc == nil {
 		r3.Anchor("css/counters.CounterStyle.resolveCounter")
